@@ -43,9 +43,9 @@ CLAIMED = {
         technique="Lean 4 gate theorems over the scope/must_use/access models + binding-vs-fresh-name twin runs of the real Checker",
         design="§4 C07"),
     "C08": dict(
-        text="Lean 4 model of comment parsing, comment claiming and the push/pop filter machine with an independent specification (innermost covering filter wins, then global, else unchanged). Proved for all inputs: diagnostics of lints no filter names are untouched for every filter family (C08_others_untouched), a file without accepted filters is returned unchanged, the most recent matching configuration decides and inner configurations shadow outer ones. The full `machine = specification for laminar families` statement is not yet a theorem (stated in Props/C08.lean); it is checked three-way (implementation / model / specification) on every generated program.",
-        note=PROOF_NOTE + "PARTIAL: full machine-equals-specification theorem pending; visitor order and str::lines are taken from the implementation via hooks.",
-        technique="Lean 4 theorems over the filter-machine model (partial) + three-way correspondence implementation / model / innermost-covering specification",
+        text="Lean 4 model of comment parsing, comment claiming and the push/pop filter machine with an independent specification (innermost covering filter wins, then the first accepted global filter, else unchanged). Proved: C08_machine — for every family of accepted filters whose inline members are the pre-order of a well-formed forest of code pieces (ranges nested or strictly apart, any depth and breadth, any number of filters per piece incl. zero-width pieces such as the end-of-file token, global filters interleaved anywhere) and every list of diagnostics, the machine never pops an empty stack and outputs exactly Spec.verdict for each diagnostic in order of position; C08_machine_checked (the same with the hypothesis as the executable check forestOf that the driver evaluates on the real get_filter_ranges output of every program); for all inputs laminar or not: C08_others_untouched, C08_no_filters, C08_most_recent_wins, C08_inner_shadows_outer; a decide-checked non-laminar counterexample shows the hypothesis is needed.",
+        note=PROOF_NOTE + "the forest hypothesis is validated on every program of the run (6 004 in the thorough tier, none failing), not proved of full_moon's visitor; visitor order and str::lines are taken from the implementation via hooks.",
+        technique="Lean 4 refinement proof: ordered insertion of a pre-order = structural instruction list (Build), lazy replay = independent prefix executions (Exec), prefix execution = stack of enclosing filters (Forest), innermost covering = first match on that stack (SpecForest) + three-way correspondence implementation / model / innermost-covering specification with the theorem's hypothesis evaluated per program",
         design="§4 C08"),
     "C09": dict(
         text="Proved over the filter model for all inputs: every claimed filter naming a missing lint is reported at its comment (C09_unknown), rejected filters have no effect on any diagnostic (C09_rejected_inert), a late global filter pushes nothing (C09_global_late_inert), a conflicting duplicate sits below the first filter and never decides (C09_conflict_inert); malformed comments are not filters (decide examples). The correspondence inspects every leading-trivia comment of every token, which exposes the recorded finding (comments before else/end are never looked at).",
